@@ -305,6 +305,9 @@ func main() {
 			exhaustive(e)
 		}
 		n := e.Scale(450, 4000)
+		if e.Search {
+			n = 1500 // the violation search runs after the tie has already broken: bounded volume, biased generator
+		}
 		polls, rounds, mismatches, deadlocked := 0, 0, 0, 0
 		// A schedule with rotated (unordered) lists may deadlock by design; its goroutines then stay parked for the
 		// rest of the process and every later stop-the-world snapshot pays for them.  Thirty such runs validate
@@ -345,8 +348,11 @@ func main() {
 		}
 		// long multi-key lists on the sharded generic lockers (after the random walk: its random stream is unchanged)
 		nl := e.Scale(50, 200)
-		if e.Search && strings.HasSuffix(e.Focus, "/long-lists") {
-			nl = 600
+		if e.Search {
+			nl = 80
+			if strings.HasSuffix(e.Focus, "/long-lists") {
+				nl = 400
+			}
 		}
 		if divergent >= divergentCap {
 			nl = 0
